@@ -3,11 +3,16 @@
 Statement-level check (module Stmt): see st_stmt.py. Verdicts come only from TLC evaluating
 C13_RollbackObs / C13_DiscardObs / C13_CommitNetObs / C13_UnevictObs / C13_NoPhantomObs (spec/StmtTrace.tla)
 on projections recorded from a real framework.Statement running on a real framework.Session.
+Real cycles (module StmtCycleTrace, st_cyclestmt.py): every statement scope that the REAL actions / solvers abandon
+(Rollback to a checkpoint, Discard) - TLC compares the projection of the session view recorded before with the one
+recorded after (C13_RollbackCycleObs / C13_DiscardCycleObs; C13_EvictedAgainWhileNominated for the scopes of
+statements that evicted a merely nominated pod, finding G37).
 """
 import json
 import os
 
 import st_cluster
+import st_cyclestmt
 import st_stmt
 import vlib
 
@@ -16,6 +21,10 @@ LEVEL = "model_checking"
 
 def run(ctx):
     st_stmt.run_stage(ctx, ["C13_"])
+    # the Rollbacks / Discards the real actions and solvers perform during real cycles: the session view recorded at the
+    # checkpoint / before the statement's first operation against the view recorded after
+    k = 1 if ctx.quick else 10
+    st_cyclestmt.run_stage(ctx, st_cyclestmt.DEFAULT, [(profile, n * k) for profile, n in st_cyclestmt.QUICK_PLAN])
     # cluster part: the Cache calls of real scheduling cycles (every action, statement commit brackets from the
     # verif hook): each pod is bound / nominated / evicted at most once per committed statement and per cycle
     n = 400 if ctx.quick else 6000
@@ -26,6 +35,9 @@ def run(ctx):
 
 
 def replay(ctx, obj):
+    if obj.get("replay", {}).get("module") == st_cyclestmt.TRACE:
+        st_cyclestmt.replay_stage(ctx, obj)
+        return
     if obj.get("replay", {}).get("module") == st_cluster.MODULE:
         st_cluster.replay_stage(ctx, obj, ["C13_"])
         return
